@@ -2,7 +2,7 @@
 """Regenerate MANIFEST.json from props.json (single source of truth for claimed checks)."""
 import json, os
 V = os.path.dirname(os.path.dirname(os.path.abspath(__file__)))
-props = json.load(open(os.path.join(V, "props.json")))
+props = {f[:-5]: json.load(open(os.path.join(V, "props", f))) for f in sorted(os.listdir(os.path.join(V, "props"))) if f.endswith(".json")}
 allids = ["C%02d" % i for i in range(1, 21)]
 hooks_commits = []
 hp = os.path.join(V, "MANIFEST.hooks")
